@@ -21,7 +21,8 @@ Lex(a, b) == a[1] < b[1] \/ (a[1] = b[1] /\ a[2] < b[2])
 P4   == {<<0, 0>>, <<0, 1>>, <<1, 0>>, <<2147483647, 2147483647>>}
 Rng  == P4 \X P4
 R3   == {<<<<0, 0>>, <<0, 1>>>>, <<<<0, 0>>, <<1, 0>>>>, <<<<1, 0>>, <<1, 0>>>>}
-Uris == {"file:///a", "file:///b"}
+\* ... and uris that some normalisation would identify (percent-encoding, case, trailing slash): equality is on the strings
+Uris == {"file:///a", "file:///b", "file:///c%3A/a", "file:///c:/a", "FILE:///a", "file:///a/", "file:///%61"}
 Loc  == {[uri |-> u, r |-> r] : u \in Uris, r \in R3}
 \* "*-like": an unrelated object that merely exposes equal attributes of the same names
 Foreign == {"int", "str", "none", "tuple", "float", "dict", "position-like", "range-like", "location-like"}
